@@ -119,6 +119,8 @@ def signature(family, mode, r) -> str:
     mc = modeclass(mode)
     if r["verdict"] == "divergent":
         return f"C08:{family}:{mc}: DivergentIntegralError raised for a convergent integrand"
+    if r["verdict"] == "exception":
+        return f"C08:{family}:{mc}: the learner raised {r['error'].split(':')[0]} on a convergent integrand"
     if r["verdict"] == "criterion":
         return ("C08:done: done() holds although err != 0, err >= |igral|*tol (the tolerance is relative), "
                 "intervals remain and the removed-interval clause does not apply")
@@ -140,6 +142,9 @@ def task_accuracy(t):
         out = _with_deadline(lambda: I.drive(mem, tol, mode, random.Random(seed), budget))
     except RunTimeout:
         return {"status": "timeout", "verdict": None, "n": 0}
+    except Exception as e:  # noqa: BLE001  (an exception the learner does not document)
+        return {"status": "exception", "verdict": None if mem.divergent else "exception", "n": 0,
+                "error": f"{type(e).__name__}: {e}"[:200]}
     r = judge(mem, tol, out)
     if r["verdict"]:
         r["ops"] = out.ops
@@ -260,7 +265,7 @@ def kernel_checks(chk: Check, rec: I.Recorder, EK: I.ExactKernel, stats: dict, t
             if j in nans:
                 continue
             worst = max(worst, abs(I.interp(c, nodes[j]) - float(fx[j])))
-        tolx = (1e-10 if not nans else 1e-7) * fmax * n
+        tolx = (1e-10 if not nans else 1e-9) * fmax * n
         stats["worst_interp"] = max(stats["worst_interp"], worst / fmax)
         if not worst <= tolx + TINY:
             flag("coefficients do not interpolate the function values at the nodes -cos(j pi/(n-1))",
@@ -435,13 +440,19 @@ def run(chk: Check) -> int:
     except Exception as e:  # noqa: BLE001  (fail closed: the tie to /repo is broken)
         chk.broke("translator", "export of the quadrature constants (trace_consts) failed", repr(e)[:600])
     theorems = dict(THEOREMS)
-    targets = ["theories/Props/C08.vo"]
+    chk.prove(["theories/Props/C08.vo"], THEOREMS, allowed_axioms=STD_AXIOMS_OK)
     cth = consts_theorems()
     if cth:
+        # the constants theorems are owned by the constants translator (C20 runs coqchk on their
+        # cone in its own thorough tier: the vm_compute proofs take > 40 min under coqchk's lazy
+        # reduction); here they are built, audited with Print Assumptions and counted
         theorems.update({n: "Props.C08consts" for n in cth})
-        targets.append("theories/Props/C08consts.vo")
+        was_quick, chk.quick = chk.quick, True
+        try:
+            chk.prove(["theories/Props/C08consts.vo"], {n: "Props.C08consts" for n in cth}, allowed_axioms=STD_AXIOMS_OK)
+        finally:
+            chk.quick = was_quick
     chk.extra["constants_theorems"] = cth or "Props/C08consts.v not present: the constants obligations are not part of this run"
-    chk.prove(targets, theorems, allowed_axioms=STD_AXIOMS_OK)
     chk.log("proofs done")
 
     quick = chk.quick
@@ -477,11 +488,14 @@ def run(chk: Check) -> int:
         d = json.loads(f.read_text())
         if d.get("kind", "accuracy") != "accuracy":
             continue
-        r = rerun_ops(d["family"], d["params"], d["tol"], d["ops"])
+        if d.get("ops"):
+            r = rerun_ops(d["family"], d["params"], d["tol"], d["ops"])
+        else:                       # a seeded schedule: (mode, seed, budget)
+            r = task_accuracy((d["family"], d["params"], d["tol"], d["mode"], d.get("seed", 0), d.get("budget", 4000)))
         ncorpus += 1
         chk.note_case(("corpus", f.name), True)
         if r["verdict"]:
-            r["ops"] = d["ops"]
+            r.setdefault("ops", d.get("ops"))
             record_failure(d["family"], d["params"], d["tol"], d.get("mode", "shuffle"), r, "corpus")
     chk.log(f"corpus: {ncorpus} cases replayed")
 
@@ -503,8 +517,11 @@ def run(chk: Check) -> int:
             results.append(r)
     ndone = 0
     div_seen = 0
-    for (fam, params, tol, mode), r in zip(metas, results):
+    for (fam, params, tol, mode), r, t in zip(metas, results, tasks):
         bump(hist["status"], r["status"])
+        if r["status"] == "exception":
+            bump(hist.setdefault("exceptions", {}), f"{fam}: {r['error'][:80]}")
+            r["seed"], r["budget"] = t[4], t[5]
         if r["status"] == "internal":
             hist["internal_errors_C07"] += 1
             continue
@@ -650,7 +667,7 @@ def run(chk: Check) -> int:
                 elif len(rec_all.coeffs) < 400:
                     rec_all.coeffs += rec.coeffs[:12]
     chk.extra["kernel_correspondence"] = dict(kstats, tolerance="1e-10 relative in norm (the one place floats are compared with a "
-                                              "tolerance: BLAS summation order is not reproducible); 1e-7 for the interpolation "
+                                              "tolerance: BLAS summation order is not reproducible); 1e-9 for the interpolation "
                                               "residual after a downdate")
     if rec_all is not None:
         coq_igral(chk, rec_all, EK, 8 if quick else 24)
@@ -676,6 +693,10 @@ def run(chk: Check) -> int:
             chk.fail(sig, f"{fam} {params} tol={tol:.3g} delivery={mode}: done() after {r['n_done']} evaluations with "
                      f"igral={r['igral']!r} err={r['err']!r}: err/|igral| = {r['err'] / max(abs(r['igral']), 1e-300):.3g} >= tol",
                      {"kind": "accuracy", "family": fam, "params": params, "tol": tol, "mode": mode, "ops": r.get("ops")})
+        elif r["verdict"] == "exception":
+            chk.fail(sig, f"{fam} {params} tol={tol:.3g} delivery={mode} seed={r.get('seed')}: {r['error']}",
+                     {"kind": "accuracy_seeded", "family": fam, "params": params, "tol": tol, "mode": mode,
+                      "seed": r.get("seed"), "budget": r.get("budget")})
         elif r["verdict"] == "divergent":
             chk.fail(sig, f"{fam} {params} tol={tol:.3g} delivery={mode}: DivergentIntegralError after {r['n']} evaluations",
                      {"kind": "accuracy", "family": fam, "params": params, "tol": tol, "mode": mode, "ops": r.get("ops")})
@@ -718,7 +739,11 @@ def replay(doc) -> int:
     for f in doc.get("failing_inputs", []):
         r = f.get("replay") or {}
         kind = r.get("kind")
-        if kind == "accuracy" and r.get("ops"):
+        if kind == "accuracy_seeded":
+            res = task_accuracy((r["family"], r["params"], r["tol"], r["mode"], r["seed"], r["budget"]))
+            print("replayed", r["family"], r["params"], "tol", r["tol"], r["mode"], "->", res["status"], res.get("error"))
+            bad += bool(res["verdict"])
+        elif kind == "accuracy" and r.get("ops"):
             res = rerun_ops(r["family"], r["params"], r["tol"], r["ops"])
             print("replayed", r["family"], r["params"], "tol", r["tol"], "->", res["status"],
                   {k: res.get(k) for k in ("igral", "exact", "err", "bound", "diff", "verdict")})
